@@ -63,12 +63,19 @@ fn parse_content(
                         Span::new(base_position + position, base_position + end_position),
                     )
                 })?;
+                // only digits are allowed; the std parsers also accept a sign
                 let code = if first_char == 'x' {
-                    u32::from_str_radix(&entity[1..], 16)
+                    if entity[1..].chars().all(|c| c.is_ascii_hexdigit()) {
+                        u32::from_str_radix(&entity[1..], 16).ok()
+                    } else {
+                        None
+                    }
+                } else if entity.chars().all(|c| c.is_ascii_digit()) {
+                    entity.parse::<u32>().ok()
                 } else {
-                    entity.parse::<u32>()
+                    None
                 };
-                let code = code.map_err(|_| {
+                let code = code.ok_or_else(|| {
                     ParseError::InvalidEntity(
                         entity.to_string(),
                         Span::new(base_position + position, base_position + end_position),
